@@ -140,6 +140,10 @@ fn hash_leaves_collecting_aunts(
 fn subtree_root_from_aunts(index: usize, total: usize, leaf: Hash, aunts: &[Hash]) -> Result<Hash> {
     debug_assert_ne!(total, 0);
 
+    if index >= total {
+        bail_verification!("leaf index ({index}) out of range (total: {total})");
+    }
+
     let root = if total == 1 {
         // we reached the leaf
         if !aunts.is_empty() {
